@@ -121,7 +121,7 @@ class Interp(Engine):
             if kind == "func":
                 return self.func_from_py(r[1], r[2])
             return r[1]
-        if isinstance(v, (Fraction,)) and name == "item":
+        if isinstance(v, (Fraction, int, float)) and name == "item":  # numpy scalars are kept as Python numbers
             return NativeMethod(lambda eng, recv, a, k: recv, v, name)
         try:
             return getattr(v, name)
@@ -515,7 +515,9 @@ class Interp(Engine):
 
     def invoke(self, func, args, kwargs):
         c = self.registry.get(func.key)
-        if c is not None and not c.pure_inline:
+        # the modular rule needs a contract that says what the call returns / may modify; a contract that only
+        # constrains its own carrier (no `returns`, no `modifies`) is inlined at call sites (always sound)
+        if c is not None and not c.pure_inline and (c.returns is not None or c.modifies or c.trusted or c.options.get("modular")):
             return self.modular_call(c, func, args, kwargs)
         if len(self.inline_stack) > 40:
             raise Unsupported(f"inline depth exceeded at {func.key}")
